@@ -5,6 +5,27 @@ V = os.path.dirname(os.path.dirname(os.path.abspath(__file__)))
 
 CHECKS = {
  # id: (category, technique, text, note, design_ref)
+ "C01": ("exploration", "runtime reference-model monitor over generated tables and writer configurations, ASan/UBSan on writer+reader, mtbl_dump output parsed and compared",
+         "Generated strictly increasing sequences (binary keys, empty key, keys/values >=128 B and >=16 KiB, entries larger than a block, long shared prefixes) are written by the real writer under generated configurations (6 compression types x level classes incl. clamped x block sizes x restart intervals x pool sizes x foreign prefixes x madvise/verify) and read back entry by entry against the sequence; a sampled subset goes through the real mtbl_dump with -k/-v/-K/-V filters. Sampled inputs, no exhaustiveness claim.",
+         "trusted: harness generator/model (harness/gen.h, common.h), gcc ASan/UBSan", "DESIGN.md §4 C01"),
+ "C02": ("exploration", "runtime reference-model monitor with query sets derived from each table (stored keys, neighbours, prefixes, index separators), ASan",
+         "For each generated multi-block table every derived query is run through mtbl_source_get / get_prefix (exhaustively over the derived set) and get_range (all pairs on small sets, seeded pairs otherwise, incl. inverted/equal/empty bounds); every iterator is drained against the sorted-array model and checked for sticky failure.",
+         "trusted: sorted-array model with own comparator; separators recovered by harness/refdec.c", "DESIGN.md §4 C02"),
+ "C03": ("exploration", "online model-shadowed iterators: full (position,target) product on small layouts + random interleaved histories, buffer-stability monitor, ASan",
+         "Each mtbl_iter is shadowed by a model position; part 1 executes the complete product of (ways to reach a position) x (seek targets) for six iterator bounds on small 3-6 block layouts for every restart interval, with and without foreign prefix; part 2 runs random 40-200 op histories on up to four interleaved iterators of larger/compressed tables; buffers handed out by next are re-read right before the next call on that iterator.",
+         "trusted: model in harness/itercheck.h; layout classes from harness/refdec.c", "DESIGN.md §4 C03"),
+ "C09": ("translation_validation", "independent decoder (own varint/CRC/block parser, direct zlib/snappy/lz4/zstd calls) validates every emitted file rule by rule",
+         "Every file the real writer emits for the C01 generator is parsed without the library and checked against each structural rule of the statement (contiguity from the initial offset, foreign bytes untouched, length prefixes, CRC-32C, index entries/offsets/separator interval, trailer padding+magic, restart validity and cadence, maximal prefix elision, block-size rules in the two stated directions). Per-rule counters show which rules were exercised.",
+         "trusted: harness/refdec.c and the compression libraries it calls directly", "DESIGN.md §4 C09"),
+ "C10": ("exploration", "runtime differential monitor: metadata accessors and parsed mtbl_info output vs truth recomputed from file bytes by the independent decoder",
+         "For generated files (incl. empty table, foreign prefix, pooled writers, interleaved refused adds) all ten mtbl_metadata_* accessors are compared with counts and byte extents recomputed from the bytes; the real mtbl_info is parsed for a sampled subset.",
+         "trusted: harness/refdec.c; if the decoder cannot establish the truth the run is inconclusive, not a violation", "DESIGN.md §4 C10"),
+ "C15": ("exploration", "runtime round-trip monitor over (algorithm, level, buffer) with exact-size ASan buffers; exhaustive over lengths 0..64 x 5 contents",
+         "Every length 0..64 x five contents (exhaustive) and seeded structured/incompressible buffers up to MiBs are compressed by mtbl_compress and mtbl_compress_level (levels from far below the minimum to far above the maximum), copied to an exact-size buffer, decompressed and compared; aborts are observed as process deaths; names round-trip and unknown names / out-of-enum types are refused.",
+         "trusted: gcc ASan; compress failure is allowed by the statement and only counted", "DESIGN.md §4 C15"),
+ "C17": ("exploration", "runtime differential monitor vs bit-at-a-time CRC-32C on exact-size ASan buffers; all lengths 0..1100 x alignments 0..7, both implementations called directly",
+         "mtbl_crc32c, my_crc32c_slicing and (when the CPU has SSE4.2) my_crc32c_sse42 are compared with a bitwise reference on every length 0..1100 at every alignment, every byte value at every position mod 8, RFC 3720 vectors and random buffers; the table-driven path is also forced through the public entry point.",
+         "trusted: 8-line bitwise CRC in harness/h_c17.c (self-checked against RFC 3720 vectors); hardware path covered only if cpuid reports SSE4.2", "DESIGN.md §4 C17"),
  "C16": ("exploration", "runtime differential monitor vs textbook LEB128 + ASan exact-size buffers; exhaustive 2^32 enumeration in thorough",
          "Every 32-bit value (thorough: all 2^32, quick: 64 full 2^20 ranges) and boundary/walking/random 64-bit values are encoded, decoded and measured by the real functions and compared byte-for-byte with a textbook LEB128 / explicit little-endian reference; buffers are exact-size heap allocations under ASan so any access beyond the encoding is a report. Exhaustive for the 32-bit half, sampled for 64 bits.",
          "trusted: the 10-line LEB128 reference in harness/h_c16.c, gcc ASan red zones", "DESIGN.md §4 C16"),
